@@ -7,19 +7,21 @@ from harness.lib import zl, cz, cbool, clist
 ID = 'C11'
 RULE = ('flat cases: a data set of n sorted entries (group key, start, DNA sequence) cut into consecutive non-empty chunks '
         '(all 2^(n-1) cuts for every n <= 7 in quick and every n <= 10 in thorough, sampled cut sets for n up to 40); on every chunking: chunk_entries / chunk_lines for '
-        'several n, sum_and_n / mean / bincount / histogram (explicit bins+range) / count_kmers (k=2,3) on the stream, and '
+        'several n, sum_and_n / mean / bincount / histogram (explicit bins+range) / count_kmers (k=1,2,3) on the stream, and '
         'groupby on four kinds of key column (StringArray, EncodedRaggedArray, int, StringEncoding-encoded). genome cases: '
         'genomes of 1..4 chromosomes, chunked interval streams through Genome.get_intervals(stream) and bnp.compute for '
         'pileup, mask, pileup sum, histogram, (histogram,sum), values under windows, mean(axis=0) of those. '
         'non-trivial = more than one chunk and some cut falls inside a group (flat) / inside a chromosome (genome)')
 EXHAUSTIVE = {'quick': False, 'thorough': False}
-TIE = ('correspondence: chunk_entries, chunk_lines, the streamable reductions, groupby+join_groupbys, iter_chromosomes walk and '
+TIE = ('translator+correspondence: translate/gen_c11.py regenerates the loop conditions, slice bounds, counter updates, '
+       'component-wise additions, change-point comparison, shortcut test, group bounds and buffer-index tests from the source '
+       '(Gen/C11.v), Bridge/C11.v proves them equal to the model kernels (theorem C11_source_tie); chunk_entries, chunk_lines, the streamable reductions, groupby+join_groupbys, iter_chromosomes walk and '
        'the computation-graph pull machine are evaluated inside Coq on the same chunking as the library')
 ASSUMPTIONS = ['np.histogram with integer data and exactly representable edges (bins divides hi-lo, or bins a power of two) '
                'bins by floor((x-lo)*bins/(hi-lo)) with the last edge inclusive (checked against the library on every case)',
                'per-chromosome operations (pileup, mask, slicing a track) are modelled by their dense meaning; their RLE '
                'algorithms are the subject of C08/C09',
-               'count_kmers is exercised for k in {2,3}; k=1 is the window-of-one defect recorded under C13',
+               'count_kmers is exercised for k in {1,2,3} (k=1 since the window-of-one repair recorded under C13)',
                'floats (mean, histogram edges) are compared as exact rationals: streamed == in-memory, and within 2^-52 '
                'relative of the exact quotient']
 PARTIAL = ['C11_rechunk_partial: the pinned chunk_entries meets the size claim only when every incoming chunk plus the carried '
@@ -236,7 +238,7 @@ def _observe_flat(case):
         h, e = bnp.histogram(stream().start, bins=k, range=(lo, hi))
         return [[int(x) for x in h], [_ratio(x) for x in e]]
     out['hist'] = [[k, lo, hi, guard(lambda: hist(k, lo, hi))] for k, lo, hi in HISTS]
-    out['kmers'] = [[k, guard(lambda: [int(x) for x in count_kmers(stream().sequence, k).counts])] for k in (2, 3)]
+    out['kmers'] = [[k, guard(lambda: [int(x) for x in count_kmers(stream().sequence, k).counts])] for k in (1, 2, 3)]
 
     def groups(field, obj=allrows, cls=Entry, fld='uid', fresh=False):
         res = []
